@@ -12,6 +12,7 @@ import (
 	"encoding/binary"
 	"encoding/json"
 	"fmt"
+	"io"
 	"io/ioutil"
 	"os"
 	"path"
@@ -617,6 +618,12 @@ func openStore(dir string, options StoreOptions) (*Store, error) {
 		err = checkHeader(file)
 		if err != nil {
 			file.Close()
+			if err == io.EOF || err == io.ErrUnexpectedEOF {
+				// The file is too short to even hold a header, such as
+				// after a crash right after its creation: not a usable
+				// data file, so try the next older one.
+				continue
+			}
 			return nil, err
 		}
 
